@@ -19,7 +19,14 @@ def main():
         except extract.ExtractError:
             pass
     with mp.get_context("fork").Pool(16) as pool:
-        reps = pool.map(_verify_worker, [(q, 20000, False) for q in qs], chunksize=1)
+        from pyvc import verify as _v
+        from pyvc.cli import merge_reports
+        tasks = []
+        for q in qs:
+            nv = _v.n_variants(q)
+            k = min(8, max(1, nv // 4))
+            tasks += [(q, 20000, False, (i, k)) for i in range(k)] if k > 1 else [(q, 20000, False)]
+        reps = merge_reports(pool.map(_verify_worker, tasks, chunksize=1))
     tot = dis = 0
     for r in reps:
         bad = [x for x in r["results"] if x["status"] != "discharged"]
